@@ -10,7 +10,7 @@ use tower::{Service, ServiceExt};
 use super::*;
 use crate::report::{hash_of, Args, Report};
 
-const RULE: &str = "public Client builder (standard redirect policy + with_timeout, pool on/off, HTTP/1.1 and HTTP/2) against a hyperdriver server whose handler sleeps S ms per hop and redirects k times, under the paused clock: the request must resolve Ok at (k+1)*S if that is before the deadline, with RequestTimeout exactly at the deadline otherwise (deadline counted from the call, also when the future is first polled later); afterwards a fresh request to the origin must be served; non-trivial = every case; distinct by case";
+const RULE: &str = "public Client builder (standard redirect policy + with_timeout, pool on/off, HTTP/1.1 and HTTP/2) against a hyperdriver server whose handler sleeps S ms per hop and redirects k times, under the paused clock: optionally through a transport whose poll_ready stays pending for R ms: the request must resolve Ok at R+(k+1)*S if that is before the deadline, with RequestTimeout exactly at the deadline otherwise (deadline counted from the call, also when the future is first polled later); afterwards a fresh request to the origin must be served; non-trivial = every case; distinct by case";
 
 #[derive(Clone, Debug, Hash)]
 pub struct Case {
@@ -20,11 +20,13 @@ pub struct Case {
     pub delay_before_poll_ms: u64,
     pub pool: bool,
     pub h2: bool,
+    /// the transport applies back-pressure: every instance of it reports ready only after this long
+    pub transport_ready_ms: u64,
 }
 
 impl Case {
     fn to_json(&self) -> Value {
-        json!({"engine": "deadline", "hops": self.hops, "sleep_ms": self.sleep_ms, "timeout_ms": self.timeout_ms, "delay_before_poll_ms": self.delay_before_poll_ms, "pool": self.pool, "h2": self.h2})
+        json!({"engine": "deadline", "hops": self.hops, "sleep_ms": self.sleep_ms, "timeout_ms": self.timeout_ms, "delay_before_poll_ms": self.delay_before_poll_ms, "pool": self.pool, "h2": self.h2, "transport_ready_ms": self.transport_ready_ms})
     }
 }
 
@@ -39,14 +41,75 @@ pub fn cases(thorough: bool) -> Vec<Case> {
                             if !thorough && delay == 300 && hops > 1 {
                                 continue;
                             }
-                            v.push(Case { hops, sleep_ms, timeout_ms, delay_before_poll_ms: delay, pool, h2 });
+                            v.push(Case { hops, sleep_ms, timeout_ms, delay_before_poll_ms: delay, pool, h2, transport_ready_ms: 0 });
                         }
                     }
                 }
             }
         }
     }
+    // a transport that is not ready at once (a saturated dial limiter, a slow resolver): the wait is part of the request
+    for ready_ms in [200u64, 900, 3000, 20_000] {
+        for sleep_ms in [0u64, 40, 600, 6000] {
+            for timeout_ms in [1000u64, 10_000] {
+                for pool in [true, false] {
+                    for h2 in [false, true] {
+                        v.push(Case { hops: 0, sleep_ms, timeout_ms, delay_before_poll_ms: 0, pool, h2, transport_ready_ms: ready_ms });
+                    }
+                }
+            }
+        }
+    }
     v
+}
+
+/// A transport whose every instance (the client clones it per connection attempt) becomes ready only `ready_ms` after
+/// it was first asked.
+pub struct SlowReady {
+    inner: Routes,
+    ready_ms: u64,
+    timer: Option<Pin<Box<tokio::time::Sleep>>>,
+}
+
+impl Clone for SlowReady {
+    fn clone(&self) -> Self {
+        SlowReady { inner: self.inner.clone(), ready_ms: self.ready_ms, timer: None }
+    }
+}
+
+impl tower::Service<http::request::Parts> for SlowReady {
+    type Response = <Routes as tower::Service<http::request::Parts>>::Response;
+    type Error = <Routes as tower::Service<http::request::Parts>>::Error;
+    type Future = <Routes as tower::Service<http::request::Parts>>::Future;
+
+    fn poll_ready(&mut self, cx: &mut Context<'_>) -> Poll<Result<(), Self::Error>> {
+        if self.ready_ms == 0 {
+            return self.inner.poll_ready(cx);
+        }
+        let ms = self.ready_ms;
+        let t = self.timer.get_or_insert_with(|| Box::pin(tokio::time::sleep(Duration::from_millis(ms))));
+        match t.as_mut().poll(cx) {
+            Poll::Pending => Poll::Pending,
+            Poll::Ready(()) => self.inner.poll_ready(cx),
+        }
+    }
+
+    fn call(&mut self, parts: http::request::Parts) -> Self::Future {
+        self.timer = None;
+        self.inner.call(parts)
+    }
+}
+
+fn kind(c: &Case) -> &'static str {
+    if c.transport_ready_ms > 0 {
+        "transport-not-ready-at-once"
+    } else if c.hops > 0 {
+        "redirected"
+    } else if c.delay_before_poll_ms > 0 {
+        "polled-late"
+    } else {
+        "plain"
+    }
 }
 
 pub async fn run_case(c: &Case) -> Vec<(String, String)> {
@@ -57,7 +120,7 @@ pub async fn run_case(c: &Case) -> Vec<(String, String)> {
     let server = spawn_server(ServerSpec { id: 0, proto: Proto::Auto, net: Net::Duplex(16_384), tls: None, graceful: false, sni_validation: false }, log.clone(), gates.clone()).await;
     routes.add("a.test", server.target.clone());
     let b = hyperdriver::Client::builder()
-        .with_transport(routes.clone())
+        .with_transport(SlowReady { inner: routes.clone(), ready_ms: c.transport_ready_ms, timer: None })
         .with_protocol(hyperdriver::client::conn::protocol::auto::HttpConnectionBuilder::<ChunkBody>::default())
         .with_standard_redirect_policy()
         .with_timeout(Duration::from_millis(c.timeout_ms))
@@ -83,13 +146,13 @@ pub async fn run_case(c: &Case) -> Vec<(String, String)> {
     })
     .await;
     let elapsed = t0.elapsed().as_millis() as u64;
-    let total = c.delay_before_poll_ms + (c.hops as u64 + 1) * c.sleep_ms;
+    let total = c.delay_before_poll_ms + (c.hops as u64 + 1) * c.sleep_ms + c.transport_ready_ms;
     let deadline = c.timeout_ms;
     match &res {
         Err(_) => problems.push(("request-never-resolves".into(), format!("neither a response nor the timeout error at quiescence (deadline {deadline} ms)"))),
         Ok(Ok(st)) => {
             if total > deadline + 2 {
-                problems.push((format!("response-after-the-deadline:{}", if c.hops > 0 { "redirected" } else if c.delay_before_poll_ms > 0 { "polled-late" } else { "plain" }), format!("status {st} at {elapsed} ms although the request was issued with a {deadline} ms timeout (hops {}, {} ms each, first poll after {} ms)", c.hops, c.sleep_ms, c.delay_before_poll_ms)));
+                problems.push((format!("response-after-the-deadline:{}", kind(c)), format!("status {st} at {elapsed} ms although the request was issued with a {deadline} ms timeout (hops {}, {} ms each, first poll after {} ms)", c.hops, c.sleep_ms, c.delay_before_poll_ms)));
             } else if elapsed > total + 5 {
                 problems.push(("response-later-than-the-server-needed".into(), format!("status {st} at {elapsed} ms, the exchange needs {total} ms")));
             }
@@ -104,7 +167,7 @@ pub async fn run_case(c: &Case) -> Vec<(String, String)> {
                 // the error cannot come before the first poll
                 let due = deadline.max(c.delay_before_poll_ms);
                 if elapsed > due + 5 {
-                    problems.push((format!("timeout-later-than-the-deadline:{}", if c.hops > 0 { "redirected" } else if c.delay_before_poll_ms > 0 { "polled-late" } else { "plain" }), format!("RequestTimeout at {elapsed} ms, deadline {deadline} ms after the call (first poll after {} ms)", c.delay_before_poll_ms)));
+                    problems.push((format!("timeout-later-than-the-deadline:{}", kind(c)), format!("RequestTimeout at {elapsed} ms, deadline {deadline} ms after the call (first poll after {} ms)", c.delay_before_poll_ms)));
                 }
                 if elapsed + 2 < deadline {
                     problems.push(("timeout-before-the-deadline".into(), format!("RequestTimeout at {elapsed} ms, deadline {deadline} ms")));
@@ -118,6 +181,8 @@ pub async fn run_case(c: &Case) -> Vec<(String, String)> {
         Ok(Ok(resp)) => {
             let _ = resp.into_body().collect().await;
         }
+        // a probe that needs a fresh connection cannot beat a deadline shorter than the transport's own delay
+        Ok(Err(e)) if c.transport_ready_ms + 5 >= c.timeout_ms && format!("{e:?}").contains("RequestTimeout") => {}
         Ok(Err(e)) => problems.push(("probe-after-timeout-failed".into(), format!("{e:?}"))),
         Err(_) => problems.push(("probe-after-timeout-never-resolves".into(), "a fresh request to the origin hangs".into())),
     }
@@ -142,7 +207,10 @@ pub fn run(args: &Args) -> Report {
         let p = r.prop("C19", RULE);
         p.eval(Some(hash_of(c)));
         p.count("client_cases", 1);
-        let total = c.delay_before_poll_ms + (c.hops as u64 + 1) * c.sleep_ms;
+        let total = c.delay_before_poll_ms + (c.hops as u64 + 1) * c.sleep_ms + c.transport_ready_ms;
+        if c.transport_ready_ms > 0 {
+            p.count("client_cases_transport_not_ready_at_once", 1);
+        }
         p.count(if total > c.timeout_ms { "client_cases_deadline_first" } else { "client_cases_response_first" }, 1);
         if c.hops > 0 {
             p.count("client_cases_redirected", 1);
